@@ -148,6 +148,19 @@ Theorem C17_keepalive_writers :
 Proof. exact writers_exact. Qed.
 Print Assumptions C17_keepalive_writers.
 
+(* "data sent" is per DATA FRAME: the model's DataSent/HeadersSent stand for one call of
+   data_send_process / headers_send_process, and in the source every frame handed to h2
+   (Stream.send_data: every chunk of a payload, also when the rest of the payload then stalls under flow
+   control; send_headers; send_request) is directly followed by the hook *)
+Theorem C17_every_frame_resets :
+  forallb site_ok send_sites = true /\
+  map (fun x => match x with (f, h, _, _) => (f, h) end) send_sites =
+  [(s2z "Stream.send_data", s2z "data_send_process");
+   (s2z "Stream.send_headers", s2z "headers_send_process");
+   (s2z "Stream.send_request", s2z "headers_send_process")].
+Proof. exact every_frame_resets. Qed.
+Print Assumptions C17_every_frame_resets.
+
 (* (5) "every keepalive_time ...": while the connection is open the ping timer fires at
    t0 + j * keepalive_time for every j >= 1; each firing is logged as IPing (a PING was sent) or ISkip
    (fire_ping logs ISkip exactly when need_ping is false) *)
